@@ -147,9 +147,9 @@ def scratch_script(r, proto):
         # HTTP/2: server preface then frames with arbitrary type / flags / length / stream id
         out.append([0.0, h2_frame(4, 0, 0, b"")])
         for _ in range(r.randint(1, 6)):
-            typ = r.choice([0, 1, 1, 2, 3, 4, 5, 6, 7, 8, 9, 10, 0x20, 0xFF])
-            flags = r.choice([0, 1, 4, 5, 8, 0x20, 0xFF])
-            sid = r.choice([0, 1, 1, 1, 2, 3, 5, 0x7FFFFFFF])
+            typ = r.choice([0, 1, 1, 1, 2, 3, 4, 5, 6, 7, 8, 9, 10, 0x20, 0xFF])
+            flags = r.choice([0, 1, 4, 4, 5, 5, 8, 0x20, 0xFF])
+            sid = r.choice([0, 1, 1, 1, 1, 2, 3, 5, 0x7FFFFFFF])
             x = r.random()
             if typ == 1 and x < 0.6:
                 # HEADERS with HPACK-encoded junk status values (literal without indexing)
@@ -168,7 +168,7 @@ def scratch_script(r, proto):
             if r.random() < 0.15:
                 fr = fr[:r.randint(1, len(fr))]
             out.append([r.choice([0.0, 0.001]), fr])
-    out.append([0.002, r.choice(["EOF", "EOF", "RESET"])])
+    out.append([r.choice([0.002, 0.05, 0.05]), r.choice(["EOF", "EOF", "RESET"])])
     return out
 
 
@@ -191,7 +191,9 @@ class ScratchFamily(ScenarioFamily):
             # one byte per read: keep the stream short
             script = [[d, (x[:3000] if isinstance(x, bytes) else x)] for d, x in script]
         ep = {"kind": "raw", "tls": tls, "alpn": ["h2", "http/1.1"],
-              "script": script, "trigger": r.choice(["data", "data", "open"])}
+              "script": script,
+              "trigger": r.choice(["data", "data", "open"]) if proto == "h1" else
+              r.choice(["data2", "data2", "data2", "data3", "data", "open"])}
         ops = []
         for i in range(r.randint(1, 2)):
             tok = f"x{i}"
